@@ -8,7 +8,7 @@ PROPERTY = "C05"
 RULE = ("enum: every +/-/0 pattern with N<=8 (quick) / N<=10 (thorough), spelled, against its reversal, its charge "
         "inversion and an independent respelling; every composition with N<=18 (quick) / 30 (thorough) plus n0 in 16..22/26 x n+,n- in 1..8/12: delta-max of one arrangement vs its inversion and reversal; hyp: sequences to 80 (quick) / 200 (thorough) residues x a generated chain of "
         "transformations from {class-preserving substitution at a random subset of positions, Omega-class-preserving "
-        "substitution, reversal, K/R<->D/E inversion}. long-neighbours: 2-4 compositions of one length 101..160 differing by one residue are analysed one after another, then compared with their inverted and reversed twins in the opposite order. Oracle: kappa, delta, delta-max, SCD (Omega for its own classes and for "
+        "substitution, reversal, K/R<->D/E inversion}. long-scd: SCD of long (129-330/560) highly charged sequences under reversal, inversion and respelling; enum-compositions also covers few-vs-many charge ratios (1..6 against 9..60/80) at 18-50 neutrals; long-neighbours: 2-4 compositions of one length 101..160 differing by one residue are analysed one after another, then compared with their inverted and reversed twins in the opposite order. Oracle: kappa, delta, delta-max, SCD (Omega for its own classes and for "
         "reversal) agree between original and transformed object to 1e-9 (either side of the clamp accepted when the exact "
         "ratio is within 1e-9 of 1 or 1.1; -1 sentinels must coincide). Non-trivial: transformed string differs and kappa "
         "is defined; distinct by (sequence, transformed sequence).")
@@ -97,6 +97,12 @@ def comp_cases(tier, seed):
     for c in util.all_compositions(hi):
         seen.add(c)
         yield {"comp": list(c), "seq": util.spell(util.arrange(*c, rnd), rnd)}
+    # lopsided charge ratios in the >=18-neutral regime (few of one sign, many of the other)
+    for Z in ((18, 30) if tier == "quick" else (18, 19, 20, 24, 30, 50)):
+        for few in range(1, 7):
+            for many in range(9, 61 if tier == "quick" else 81, (1 if tier != "quick" else 2) if Z == 18 else 3):
+                for (P, M) in ((many, few), (few, many)):
+                    yield {"comp": [P, M, Z], "seq": util.spell(util.arrange(P, M, Z, rnd), rnd)}
     top = 8 if tier == "quick" else 12
     for Z in range(16, 23 if tier == "quick" else 27):
         for P in range(1, top + 1):
@@ -115,6 +121,15 @@ def check_comp(ctx, case):
     c = util.sp(s[::-1]).get_deltaMax()
     ctx.check(ref.close(a, b), "comp-inversion:dmax", "delta-max changed under charge inversion: %r vs %r for %s" % (a, b, case["comp"]), case)
     ctx.check(ref.close(a, c), "comp-reversal:dmax", "delta-max changed under reversal: %r vs %r for %s" % (a, c, case["comp"]), case)
+
+
+def check_long_scd(ctx, case):
+    s = case["seq"]
+    ctx.count(case, nontrivial=True, classes=["long-scd", "charged:%d" % (sum(1 for r in s if r in ref.POS + ref.NEG) // 64 * 64)])
+    a = util.sp(s).get_SCD()
+    for what, t in (("reversal", s[::-1]), ("inversion", invert(s)), ("respell", case["respell"])):
+        b = util.sp(t).get_SCD()
+        ctx.check(ref.close(a, b), "long-scd:" + what, "%s changed SCD of a %d-residue sequence: %r vs %r" % (what, len(s), a, b), case)
 
 
 def check_neighbours(ctx, case):
@@ -209,6 +224,9 @@ def parts(tier):
         Part("hyp-chains", "hyp", check=check_chain,
              strategy=lambda t: chains(80 if t == "quick" else 200),
              examples={"quick": 2400, "thorough": 16000}, shards={"quick": 16, "thorough": 16}),
+        Part("hyp-long-scd", "hyp", check=check_long_scd, shrink=False,
+             strategy=lambda t: gens.long_charged(129, 330 if t == "quick" else 560).flatmap(lambda s: gens.spelled(ref.pattern(s)).map(lambda r: {"seq": s, "respell": r})),
+             examples={"quick": 96, "thorough": 1600}, shards={"quick": 16, "thorough": 16}),
         Part("hyp-long-neighbours", "hyp", check=check_neighbours, strategy=lambda t: neighbour_case(), shrink=False,
              examples={"quick": 64, "thorough": 1200}, shards={"quick": 16, "thorough": 16}),
     ]
